@@ -11,6 +11,7 @@ def run():
     if tier not in ("quick", "thorough"):
         tier = "quick"
     seed = int(os.environ.get("VERIF_SEED", "0") or 0)
+    os.environ["VERIF_TIER_RUN"] = tier
     try:
         mod = importlib.import_module("harness." + a.prop.lower())
     except ModuleNotFoundError:
